@@ -39,6 +39,11 @@ def templates():
         ("{s} eq 'k'", "String"), ("'k' ne {s} and s1 eq 'x'", "String"), ("not ({s} lt 'm') or i1 eq 1", "String"), ("{i} lt 5", "Integer"), ("5 ge {i} and i1 gt 0", "Integer"),
         ("{f} gt 1.5 or f1 lt 0.5", "Float"), ("{d} eq 2020-06-15", "Date"), ("2020-06-15 ne {d} and d1 ne null", "Date"), ("{dt} gt 2001-01-01T00:00:00Z", "DateTime"),
         ("{g} eq 01234567-89ab-cdef-0123-456789abcdef", "GUID"), ("{s} in ('a', 'b') or s1 eq 'z'", "String"), ("{i} in (1, 2, 3)", "Integer"),
+        # the SAME literal written twice inside equal sub-terms of one filter (range checks repeat a call)
+        ("indexof(s1, {s}) ge 0 and indexof(s1, {s}) lt 5", "String"), ("concat(s1, {s}) eq 'x' or concat(s1, {s}) eq 'y'", "String"),
+        ("substring(s1, {i}) eq 'a' or substring(s1, {i}) eq 'b'", "Integer"), ("length(concat(s1, {s})) gt 1 and length(concat(s1, {s})) lt 9", "String"),
+        ("i1 add {i} gt 0 and i1 add {i} lt 9", "Integer"), ("round(f1 add {f}) eq 1 or round(f1 add {f}) eq 2", "Float"),
+        ("tolower(concat({s}, s1)) eq 'a' or not (tolower(concat({s}, s1)) eq 'b')", "String"), ("year(d1) eq {i} or year(d1) eq {i} add 1", "Integer"),
         ("length(trim({s})) eq 5", "String"), ("concat(trim({s}), 'x') eq s1", "String"), ("tolower(trim({s})) eq s1", "String"), ("indexof(s1, toupper({s})) eq 1", "String"),
         ("contains(s1, trim({s}))", "String"), ("substring(concat({s}, s1), 1) eq s2", "String"), ("length(concat(tolower({s}), toupper({s}))) gt i1", "String"),
         ("i1 eq year({d})", "Date"), ("i1 eq month({dt}) or i1 eq hour({dt})", "DateTime"), ("f1 gt floor({i})", "Integer"), ("i1 add length({s}) gt {i}", "String"),
